@@ -166,7 +166,7 @@ def run(tier, seed):
         simple = [n for n in name2code if re.fullmatch(r'[a-z0-9]{1,5}', n) and name2code[n] < 767 and name2code[n] > 0
                   and not vmap[name2code[n]].startswith(('BTN_', 'MouseWheel'))]
         mcases = []
-        for i in range(40 if tier == 'quick' else 600):
+        for i in range(150 if tier == 'quick' else 3000):
             src = rng.sample(simple, rng.randint(1, 8))
             pu = rng.random() < 0.6
             rest = [n for n in simple if name2code[n] not in {name2code[s] for s in src}]
@@ -174,6 +174,8 @@ def run(tier, seed):
             exc_codes = {name2code[n] for n in exc}
             exc = [n for j, n in enumerate(exc) if name2code[n] not in {name2code[m] for m in exc[:j]}]
             lm = rng.sample(simple, rng.randint(0, 4)) if rng.random() < 0.6 else []
+            if exc and rng.random() < 0.6:
+                lm += rng.sample(exc, rng.randint(1, min(2, len(exc))))     # an excepted key that a deflayermap remaps
             lm = [n for j, n in enumerate(lm) if name2code[n] not in {name2code[m] for m in lm[:j]}]
             opt = ''
             if pu:
